@@ -14,6 +14,7 @@ from decimal import Decimal
 sys.path.insert(0, os.path.dirname(os.path.abspath(__file__)))
 import c04 as g
 
+os.environ.setdefault("OMP_NUM_THREADS", "1")     # many runs in parallel: one thread each (no oversubscription, no timeouts under load)
 VERIF = g.VERIF
 REPO = os.environ.get("VOTCA_REPO", "/repo")
 me, dec = g.me, g.dec
@@ -187,7 +188,7 @@ def run_one(exe, s, C):
         if s.frc:
             cmd.append("--force")
         try:
-            r = subprocess.run(cmd, cwd=d, stdout=subprocess.PIPE, stderr=subprocess.PIPE, timeout=120)
+            r = subprocess.run(cmd, cwd=d, stdout=subprocess.PIPE, stderr=subprocess.PIPE, timeout=900)
             rc = r.returncode
             msg = (r.stdout.decode(errors="replace")[-300:] + r.stderr.decode(errors="replace")[-300:])
         except subprocess.TimeoutExpired:
